@@ -1668,7 +1668,7 @@ impl<K: Elem, V: Elem> MapDrv<K, V> {
                 });
                 crate::check!(hit.is_some() == (k < len), "iter().nth({}) is_some = {} with len() {}", k, hit.is_some(), len);
                 if let Some(id) = hit {
-                    crate::check!(self.model.pos(id).is_some(), "iter().nth({}) yielded key {} which the model does not hold", k, id);
+                    crate::check!(!self.compare || self.model.pos(id).is_some(), "iter().nth({}) yielded key {} which the model does not hold", k, id);
                 }
                 let a = self.map.keys().skip(k).count();
                 crate::check!(a == len.saturating_sub(k), "keys().skip({}).count() = {} with len() {}", k, a, len);
